@@ -21,7 +21,7 @@ for i, a in enumerate(args):
     if a == "--demo-tags": demo_tags = args[i+1]
     if a == "--demo-pkg": demo_pkg = args[i+1]
     if a == "--run": run_re = args[i+1]
-clone = "/dev/shm/repo-m"
+clone = os.environ.get("SEED_CLONE", "/dev/shm/repo-m")
 env = dict(os.environ, GOFLAGS="-mod=mod", GOPROXY="off", GOSUMDB="off", GOTOOLCHAIN="local")
 
 def sh(cmd, cwd=None, timeout=1800, e=env):
